@@ -122,7 +122,7 @@ func (fe *FuncEnc) slice(o *Obl) []bool {
 		if fe.hub[sy] {
 			continue
 		}
-		for _, i := range fe.usedIn[sy] {
+		for _, i := range fe.trigIn[sy] {
 			if i >= n || keep[i] || fe.items[i].Def != "" {
 				continue
 			}
@@ -163,6 +163,7 @@ func (fe *FuncEnc) indexItems() {
 	}
 	fe.defAt = map[string]int{}
 	fe.usedIn = map[string][]int{}
+	fe.trigIn = map[string][]int{}
 	fe.hub = map[string]bool{}
 	for i, it := range fe.items {
 		if it.Def != "" {
@@ -183,6 +184,27 @@ func (fe *FuncEnc) indexItems() {
 			seen[sy] = true
 			it.Syms = append(it.Syms, sy)
 			fe.usedIn[sy] = append(fe.usedIn[sy], i)
+		}
+		if it.Def == "" {
+			guardSyms := map[string]bool{}
+			if it.Guard != "" && it.Guard != "true" {
+				for _, sy := range symRe.FindAllString(it.Guard, -1) {
+					guardSyms[sy] = true
+				}
+			}
+			// symbols that occur in the fact part: all symbols whose number of occurrences exceeds those in the guard
+			body := it.Text
+			if it.Guard != "" && it.Guard != "true" {
+				body = strings.Replace(body, it.Guard, "", 1)
+			}
+			seenT := map[string]bool{}
+			for _, sy := range symRe.FindAllString(body, -1) {
+				if _, ok := fe.defAt[sy]; !ok || seenT[sy] {
+					continue
+				}
+				seenT[sy] = true
+				fe.trigIn[sy] = append(fe.trigIn[sy], i)
+			}
 		}
 	}
 	fe.indexedN = len(fe.items)
